@@ -20,26 +20,36 @@ LEVEL_TEXT = ("PROVED in Coq, for every history without access conditions and an
               "PARTIAL: convergence through StrongRemove rebuilds (non-empty filter, mutual removes) is NOT proved; it is checked on every "
               "run by correspondence only: random concurrent histories are processed by the real GroupCrdt<.., StrongRemove> in several "
               "causal orders with repeated queries and all answers must be identical (metamorphic oracle on the real code); in addition an "
-              "executable transcription of the strong-remove filter (no mutual-remove cycles) is compared with the implementation, and the "
-              "proved model is compared on filter-free histories.")
+              "executable transcription of the strong-remove filter (no mutual-remove cycles) and of the nested-group cycle check "
+              "(would_create_cycle on the state at the operation's dependencies) is compared with the implementation, and the "
+              "proved model is compared on filter-free histories whose nesting graph is statically acyclic. Replicas must also agree "
+              "on the outcome KIND of every operation (accepted / GroupCycle / state-change error variant / ...).")
 LEVEL_NOTE = ("Trusted: Coq kernel + vm_compute; hand-written model (HashMap/HashSet = association lists whose iteration order is a "
-              "permutation parameter; GroupStates flattened to one map keyed by (group, member); nested-group cycle rejection and "
-              "mutual-remove authority graphs not modelled); harness/python glue. Correspondence is differential testing, bounded by the "
+              "permutation parameter; GroupStates flattened to one map keyed by (group, member); nested-group cycle rejection only in "
+              "the unproved transcription run_r; mutual-remove authority graphs not modelled); harness/python glue. Correspondence is differential testing, bounded by the "
               "generators.")
 ASSUMPTIONS = ["theorems: no access conditions (C = (), every Access has conditions = None); every operation's dependencies precede it (causal order); operation ids unique",
                "model of process covers histories whose StrongRemove filter stays empty; other histories are covered by correspondence only",
-               "generated histories add nested groups only along a fixed rank order (no nested-group cycles) and create every group once"]
+               "theorems (model `run`) have no nested-group cycle check: they describe the code only for histories whose static 'group added to group' graph is acyclic (cycle_prone = false; modes plain/sep/mixed add groups along a fixed rank order); cycle-prone histories (mode nest) are covered by the metamorphic oracle on the real code and by the transcription run_r",
+               "every group is created once"]
 TRUSTED = ["modelled not verified: HashMap iteration order = list order (theorems quantify over permutations)",
            "modelled not verified: validate's rebuild of the state at the dependencies = merge of stored per-operation states (filter empty)",
-           "not modelled: mutual-remove cycles (authority_graphs.rs), would_create_cycle; covered by the metamorphic oracle on the real code only"]
+           "not modelled: mutual-remove cycles (authority_graphs.rs); covered by the metamorphic oracle on the real code only",
+           "would_create_cycle: transcribed in accept_r/run_r (evaluated on the state at the operation's dependencies), nothing proved about it; compared with the implementation on every cycle-prone history"]
 RULE = ("random concurrent group histories built by a python simulator of replicas/branches (create, add, remove incl. self-removal, "
         "promote, demote, nested groups, a few unauthorised operations), modes: plain (C=()), cond-sep (one fixed condition per "
-        "individual, no nesting), cond-mixed (random conditions below Manage, nesting); each processed in the generation order plus "
-        "random topological orders (quick: 240 histories, 4 orders x 3 queries, 3-14 ops; thorough: 750 histories, 8 orders, up to 22 ops). "
+        "individual, no nesting), cond-mixed (random conditions below Manage, nesting), nest (C=(), 2-5 groups with one stable manager each: "
+        "sub-group adds in both directions between groups issued sequentially and concurrently, reverse adds of an edge that exists somewhere "
+        "in the DAG, chain closing G1>G2>G3 then G1 into G3, sub-group removals followed by / concurrent with reverse adds, stale branches, "
+        "self-adds, a few individual operations); each processed in the generation order plus random topological orders, nest also in "
+        "targeted orders that deliver a group add directly before a concurrent nesting operation (e.g. between the add and the removal of "
+        "the opposite edge) (quick: 330 histories of which 90 nest, 4-5 orders x 2-3 queries, 3-14 ops; thorough: 1050 histories, 8 orders, "
+        "up to 22 ops). The observation per replica is the accepted set, the outcome kind of every operation and members/root_members of every group. "
         "non-trivial = the history has at least two concurrent operations, at least two distinct orders were run and a non-create "
         "operation was accepted")
 
 LEVELS = 4
+PLAIN_MODES = ("plain", "nest")     # C = (): no access conditions anywhere
 
 
 # ------------------------------------------------------------------------------------------------
@@ -229,6 +239,209 @@ def _history(rng, mode, nind, ngrp, nsteps, maxbranch, p_invalid):
     return ops, groups
 
 
+def _reaches(st, src, target):
+    """would_create_cycle's search on simulator state st: is group `target` reachable from `src`."""
+    stack, seen = [src], set()
+    while stack:
+        c = stack.pop()
+        if c in seen:
+            continue
+        seen.add(c)
+        if c == target:
+            return True
+        stack += [k[1][1] for k, v in st.items() if k[0] == c and k[1][0] == 1 and v[0] % 2 == 1]
+    return False
+
+
+def _nest_history(rng, nind, ngrp, nsteps, maxbranch, p_invalid):
+    """Cycle-prone nested-group histories: several groups, every group has one fixed manager who
+    is never removed or demoted (so a manager's removal of a sub-group is never filtered), group
+    adds in BOTH directions between groups (sequential and concurrent), reverse adds of an edge
+    that exists somewhere in the DAG, closing of chains (G1 > G2 > G3, then G1 into G3), sub-group
+    removals, stale branches that have not seen an add / a removal, a few individual operations
+    so that membership through a nested group is observable."""
+    ROOT = 100
+    groups = [ROOT + i for i in range(ngrp)]
+    mgr = {g: rng.randrange(nind) for g in groups}
+    ops, by_id, states = [], {}, {}
+    edges_ever, ok = [], set()
+
+    def emit(op, view):
+        op["id"] = len(ops)
+        op["deps"] = _heads(view, by_id)
+        base = {}
+        for d in op["deps"]:
+            base = _merge(states[d], base)
+        new = _apply(base, op)
+        if new is not None and op["kind"] == 1 and op["mk"] == 1 and _reaches(base, op["mid"], op["group"]):
+            new = None          # GroupCycle at the operation's own dependencies
+        states[op["id"]] = new if new is not None else base
+        ops.append(op)
+        by_id[op["id"]] = op
+        if op["kind"] == 1 and op["mk"] == 1:
+            edges_ever.append((op["group"], op["mid"]))
+        if new is not None:
+            view.add(op["id"])
+            ok.add(op["id"])
+
+    def mk(author, g, kind, m=(0, 0), lvl=0, init=()):
+        return {"author": author, "group": g, "kind": kind, "mk": m[0], "mid": m[1], "lvl": lvl, "cond": 0, "init": list(init)}
+
+    def create(g, view):
+        init = [(0, mgr[g], 3, 0)]
+        for i in range(nind):
+            if i != mgr[g] and rng.random() < 0.35:
+                init.append((0, i, rng.randint(0, 2), 0))
+        rng.shuffle(init)
+        emit(mk(mgr[g], g, 0, init=init), view)
+
+    def state_of(view):
+        st = {}
+        for h in _heads(view, by_id):
+            st = _merge(states[h], st)
+        return st
+
+    base_view = set()
+    late = groups[-1] if ngrp >= 3 and rng.random() < 0.3 else None
+    for g in groups:
+        if g != late:
+            create(g, base_view)
+    snapshot = set(base_view)
+    views = [base_view]
+    for _ in range(nsteps):
+        r = rng.random()
+        if r < 0.15 and len(views) < maxbranch:
+            views.append(set(rng.choice(views)))
+            continue
+        if r < 0.24 and len(views) >= 2:
+            a, b = rng.sample(range(len(views)), 2)
+            views[a] |= views[b]
+            if rng.random() < 0.4:
+                views.pop(b)
+            continue
+        if rng.random() < 0.12:         # a replica that has seen nothing but the creations
+            view = set(snapshot)
+            if len(views) < maxbranch:
+                views.append(view)
+        else:
+            view = rng.choice(views)
+        if late is not None and rng.random() < 0.3:
+            create(late, view)
+            late = None
+            continue
+        st = state_of(view)
+        present = sorted({k[0] for k in st})
+        if not present:
+            continue
+
+        def actor_for(g):
+            return rng.randrange(nind) if rng.random() < p_invalid else mgr[g]
+
+        t = rng.random()
+        if t < 0.27:
+            act = [(k[0], k[1][1]) for k, v in st.items() if k[1][0] == 1 and v[0] % 2 == 1]
+            if act:
+                g, h = rng.choice(sorted(act))
+                stale = set(view)
+                emit(mk(actor_for(g), g, 2, (1, h)), view)
+                u = rng.random()
+                if u < 0.35:        # reverse add from a branch that saw the add but not the removal
+                    emit(mk(actor_for(h), h, 1, (1, g), rng.randint(0, 2)), stale)
+                    if len(views) < maxbranch:
+                        views.append(stale)
+                elif u < 0.6:       # reverse add right after the removal
+                    emit(mk(actor_for(h), h, 1, (1, g), rng.randint(0, 2)), view)
+                continue
+            t = 0.3
+        if t < 0.78:
+            u = rng.random()
+            g = h = None
+            if u < 0.45 and edges_ever:
+                h, g = rng.choice(edges_ever)           # reverse of an edge that exists somewhere
+            elif u < 0.62 and edges_ever:
+                a, b = rng.choice(edges_ever)           # close a chain a > b > c by adding a to c
+                nxt = [e for e in edges_ever if e[0] == b]
+                if nxt:
+                    g, h = rng.choice(nxt)[1], a
+            if g is None:
+                g = rng.choice(groups)
+                h = g if rng.random() < 0.04 else rng.choice([x for x in groups if x != g] or [g])
+            emit(mk(actor_for(g), g, 1, (1, h), rng.randint(0, 2)), view)
+            continue
+        g = rng.choice(present)
+        active = [k[1] for k, v in st.items() if k[0] == g and v[0] % 2 == 1 and k[1][0] == 0 and k[1][1] != mgr[g]]
+        kind = rng.choice([1, 1, 2, 3, 4])
+        if kind == 1 or not active:
+            cands = [(0, i) for i in range(nind) if i != mgr[g] and (0, i) not in active]
+            if not cands:
+                continue
+            emit(mk(actor_for(g), g, 1, rng.choice(cands), rng.randint(0, 2)), view)
+        else:
+            m = rng.choice(active)
+            actor = m[1] if kind == 2 and rng.random() < 0.2 else actor_for(g)
+            emit(mk(actor, g, kind, m, 0 if kind == 2 else rng.randint(0, 2)), view)
+    return ops, groups, mgr, ok
+
+
+def _nest_cost(ops, groups, mgr, ok, depth=1000, cap=10 ** 9):
+    """Upper bound on the number of `members_inner` calls one query round makes at the end of the
+    history.  `members_inner` has no visited set, it is bounded only by MAX_NESTED_DEPTH = 1000:
+    a nesting cycle (two concurrent adds in opposite directions, both valid) costs 1000 calls and
+    two cycles through one group 2^500.  Edges counted: every add of a group that is valid at its
+    own dependencies (simulator: authorised, not a duplicate, no cycle there) and not causally
+    followed by the manager's removal of that group (managers are stable in this mode).  The
+    harness has its own guard on the real state, this only keeps the generated set cheap."""
+    past = _past({"ops": ops})
+    alive = set()
+    for a in ops:
+        if a["kind"] == 1 and a["mk"] == 1 and a["id"] in ok:
+            killed = any(r["kind"] == 2 and r["mk"] == 1 and r["group"] == a["group"] and r["mid"] == a["mid"]
+                         and r["author"] == mgr[r["group"]] and r["id"] != a["id"] and a["id"] in past[r["id"]] for r in ops)
+            if not killed:
+                alive.add((a["group"], a["mid"]))
+    nodes = set(groups) | {h for _, h in alive}
+    w = {g: 1 for g in nodes}
+    for _ in range(depth):
+        w2 = {g: min(cap, 1 + sum(w[h] for (x, h) in alive if x == g)) for g in nodes}
+        if w2 == w:         # acyclic nesting: stable after a few rounds
+            break
+        w = w2
+    return sum(w[g] for g in groups)
+
+
+def _targeted_orders(rng, ops, limit):
+    """Orders in which a group add X is delivered directly before an operation R on the group
+    nesting that is concurrent to it (after everything R depends on, e.g. between the add and the
+    removal of the opposite edge), and the mirror order."""
+    past = _past({"ops": ops})
+    nest = [o for o in ops if o["mk"] == 1 and o["kind"] in (1, 2)]
+    pairs = [(x, r) for x in nest if x["kind"] == 1 for r in nest
+             if x["id"] != r["id"] and x["id"] not in past[r["id"]] and r["id"] not in past[x["id"]]]
+    rng.shuffle(pairs)
+    out = []
+    for x, r in pairs[:limit]:
+        first = sorted((past[x["id"]] | past[r["id"]]) - {x["id"], r["id"]})
+        rest = [o["id"] for o in ops if o["id"] not in first and o["id"] not in (x["id"], r["id"])]
+        out.append(first + [x["id"], r["id"]] + rest)
+    return out
+
+
+def _nest_case(rng, nind, ngrp, nsteps, maxbranch, norders, p_invalid=0.05):
+    ops, groups, mgr, ok = _nest_history(rng, nind, ngrp, nsteps, maxbranch, p_invalid)
+    orders = [list(range(len(ops)))]
+    for o in _targeted_orders(rng, ops, max(1, norders // 2)):
+        if o not in orders:
+            orders.append(o)
+    for _ in range(2 * norders):
+        if len(orders) >= norders:
+            break
+        o = _topo(rng, ops)
+        if o not in orders:
+            orders.append(o)
+    case = {"mode": "nest", "reps": 2, "ops": ops, "groups": groups, "orders": orders}
+    return case, _nest_cost(ops, groups, mgr, ok)
+
+
 def _topo(rng, ops):
     done, out = set(), []
     left = list(range(len(ops)))
@@ -251,15 +464,28 @@ def _case(rng, mode, nind, ngrp, nsteps, maxbranch, norders, p_invalid=0.08):
     return {"mode": mode, "reps": 3, "ops": ops, "groups": groups, "orders": orders}
 
 
+NEST_CHEAP, NEST_DEEP_MAX = 200, 5500
+
+
 def gen(tier, rng):
     if tier == "quick":
-        plan = [("plain", 150, 4), ("sep", 40, 4), ("mixed", 50, 4)]
-        steps, maxops = (8, 18), 14
+        plan = [("nest", 90, 5), ("plain", 150, 4), ("sep", 40, 4), ("mixed", 50, 4)]
+        steps, maxops, ndeep = (8, 18), 14, 8
     else:
-        plan = [("plain", 500, 8), ("sep", 100, 8), ("mixed", 150, 8)]
-        steps, maxops = (8, 30), 22
+        plan = [("nest", 300, 8), ("plain", 500, 8), ("sep", 100, 8), ("mixed", 150, 8)]
+        steps, maxops, ndeep = (8, 30), 22, 25
     for mode, n, norders in plan:
         k = 0
+        while k < n and mode == "nest":
+            c, cost = _nest_case(rng, rng.randint(3, 4), rng.randint(2, 5), rng.randint(*steps), rng.randint(2, 4), norders)
+            if len(c["ops"]) < 4 or len(c["ops"]) > maxops:
+                continue
+            if cost > NEST_CHEAP:       # the final state may contain a nesting cycle: 1000-deep traversals
+                if cost > NEST_DEEP_MAX or ndeep == 0:
+                    continue
+                ndeep -= 1
+            k += 1
+            yield c
         while k < n:
             c = _case(rng, mode, rng.randint(3, 5), rng.randint(1, 3), rng.randint(*steps), rng.randint(2, 4), norders)
             if len(c["ops"]) < 3 or len(c["ops"]) > maxops:
@@ -273,7 +499,7 @@ def gen(tier, rng):
 # ------------------------------------------------------------------------------------------------
 
 def harness_line(case):
-    t = [0 if case["mode"] == "plain" else 1, case["reps"], len(case["ops"])]
+    t = [0 if case["mode"] in PLAIN_MODES else 1, case["reps"], len(case["ops"])]
     for o in case["ops"]:
         t += [o["id"], o["author"], o["group"], o["kind"], o["mk"], o["mid"], o["lvl"], o["cond"], len(o["init"])]
         for e in o["init"]:
@@ -373,13 +599,25 @@ def _mixed_members(case):
     return out
 
 
+def _strip_kinds(ans):
+    """answer without the implementation-only `e=<outcome kinds>` token (the model has none)."""
+    return " ".join(t for t in ans.split(" ") if not t.startswith("e="))
+
+
+def _kinds(ans):
+    for t in ans.split(" "):
+        if t.startswith("e="):
+            return t[2:]
+    return None
+
+
 def _parse(ans):
     """answer -> (acc bits, {(query, group, kind, id): (lvl, cond)})"""
     toks = ans.split(" ")
     bits = toks[0][4:]
     d = {}
     for t in toks[1:]:
-        if not t:
+        if not t or t.startswith("e="):
             continue
         q = t[0]
         g, _, rest = t[1:].partition("{")
@@ -393,12 +631,14 @@ def _parse(ans):
 
 
 def known(case, impl):
-    if case["mode"] == "plain" or impl.startswith("PANIC"):
+    if case["mode"] in PLAIN_MODES or impl.startswith("PANIC"):
         return None
     try:
         parsed = [_parse(a) for a in _answers(impl)]
     except Exception:
         return None
+    if len({k for k in map(_kinds, _answers(impl)) if k is not None}) > 1:
+        return None          # replicas disagree on the outcome kind of an operation: not this finding
     bits0, d0 = parsed[0]
     mixed = _mixed_members(case)
     for bits, d in parsed[1:]:
@@ -421,11 +661,11 @@ def agree(case, impl, model):
     if tag not in ("A", "B"):
         return False
     ans = _answers(impl)
-    if model.split(" ", 1)[1].strip() == ans[0]:
+    if model.split(" ", 1)[1].strip() == _strip_kinds(ans[0]):
         return True
     # with mixed conditions the implementation's answer depends on HashMap iteration order; the
     # model fixes one order, so a difference confined to the finding's class is not a mismatch
-    if case["mode"] != "plain" and known(case, impl + " / " + model.split(" ", 1)[1].strip()) == FINDING and _mixed_members(case):
+    if case["mode"] not in PLAIN_MODES and known(case, impl + " / " + model.split(" ", 1)[1].strip()) == FINDING and _mixed_members(case):
         return True
     return False
 
@@ -473,8 +713,34 @@ def distribution(cases, impl):
                 rejected += 1
             if len(set(ans)) > 1:
                 diverged += 1
+    outcome, nest = {}, {"histories": 0, "group_adds": 0, "group_removes": 0, "concurrent_opposite_adds": 0,
+                         "add_then_remove_with_concurrent_reverse_add": 0, "GroupCycle_rejections": 0}
+    for i, c in enumerate(cases):
+        io = impl.get(i)
+        if io and not io.startswith("PANIC"):
+            for ch in (_kinds(_answers(io)[0]) or ""):
+                outcome[ch] = outcome.get(ch, 0) + 1
+        if c["mode"] != "nest":
+            continue
+        past = _past(c)
+        ga = [o for o in c["ops"] if o["kind"] == 1 and o["mk"] == 1]
+        gr = [o for o in c["ops"] if o["kind"] == 2 and o["mk"] == 1]
+
+        def conc(a, b):
+            return a["id"] not in past[b["id"]] and b["id"] not in past[a["id"]]
+        nest["histories"] += 1
+        nest["group_adds"] += len(ga)
+        nest["group_removes"] += len(gr)
+        nest["concurrent_opposite_adds"] += any(a["group"] == b["mid"] and a["mid"] == b["group"] and conc(a, b) for a in ga for b in ga)
+        nest["add_then_remove_with_concurrent_reverse_add"] += any(
+            r["group"] == a["group"] and r["mid"] == a["mid"] and a["id"] in past[r["id"]] and x["group"] == a["mid"]
+            and x["mid"] == a["group"] and conc(x, a) and conc(x, r) for a in ga for r in gr for x in ga)
+        if io and not io.startswith("PANIC"):
+            nest["GroupCycle_rejections"] += (_kinds(_answers(io)[0]) or "").count("C")
     return {"modes": modes, "op_kinds(0=create,1=add,2=remove,3=promote,4=demote)": kinds,
+            "outcome_kinds(.=accepted,-=dependency rejected,C=GroupCycle,M=manager group,a/r/s/n/m/u/v=state change error)": outcome,
+            "nested_cycle_prone(mode nest)": nest,
             "max_ops": max(nops), "mean_ops": round(sum(nops) / len(nops), 1),
             "cases_with_a_rejected_operation": rejected, "cases_with_diverging_answers": diverged,
             "concurrent_histories": sum(1 for c in cases if _has_concurrency(c)),
-            "model_class(A=proved model,B=filter transcription,UNMODELLED=mutual removes possible)": dict(CLASS)}
+            "model_class(A=proved model,B=filter+cycle-check transcription,UNMODELLED=mutual removes possible)": dict(CLASS)}
